@@ -97,13 +97,20 @@ def add_glue_as_needed(*, _sys_modules_len_cache: list[int] = [0]) -> None:
     # tracebacks simultaneously
     with glue_lock:
         module_names = tuple(sys.modules)
+        visited_all = True
         for module_name in module_names:
+            try:
+                module = sys.modules[module_name]
+            except KeyError:
+                # The module was removed since we took the snapshot. Leave
+                # its glue alone (if it comes back we want to be able to
+                # prefer its own glue) and rescan next time.
+                visited_all = False
+                continue
             builtin_fn = builtin_glue_pending.pop(module_name, None)
             try:
-                module_fn = sys.modules[module_name].__dict__.pop(
-                    "_stackscope_install_glue_", None
-                )
-            except Exception:  # module disappeared, doesn't have a dict, etc
+                module_fn = module.__dict__.pop("_stackscope_install_glue_", None)
+            except Exception:  # module doesn't have a dict, etc
                 module_fn = None
             try:
                 # Prefer the module-supplied glue over our builtin version
@@ -126,8 +133,9 @@ def add_glue_as_needed(*, _sys_modules_len_cache: list[int] = [0]) -> None:
                     RuntimeWarning,
                 )
         # Only update the length cache if we visited every module (rather
-        # than bailing out with an exception)
-        _sys_modules_len_cache[0] = len(module_names)
+        # than bailing out with an exception or skipping one that vanished)
+        if visited_all:
+            _sys_modules_len_cache[0] = len(module_names)
 
 
 functools_singledispatch_wrapper = get_code(functools.singledispatch, "wrapper")
